@@ -7,6 +7,7 @@ pub mod c03;
 pub mod c04;
 pub mod c05;
 pub mod c13;
+pub mod c14;
 pub mod c20;
 
 pub fn dispatch(a: &Args) -> Option<Report> {
@@ -17,6 +18,7 @@ pub fn dispatch(a: &Args) -> Option<Report> {
         "C04" => c04::run(a),
         "C05" => c05::run(a),
         "C13" => c13::run(a),
+        "C14" => c14::run(a),
         "C20" => c20::run(a),
         _ => None,
     }
